@@ -557,7 +557,9 @@ fn send_cases() -> Vec<SendCase> {
 }
 
 pub fn run(args: &Args) -> i32 {
-    let thorough = args.tier == Tier::Thorough;
+    // the deeper parameter set is cheap enough (seconds) to be the quick tier as well
+    let thorough = true;
+    let _ = Tier::Thorough;
     let mut rep = Report::new("C12", args.tier, args.seed, "exploration");
     rep.exhaustive = true;
     rep.rule = "receive: product of per-slot alternatives - :method {absent, GET, 'G T', twice} x :scheme {absent, https, '1://'} x :authority {absent, a.example, '', 'a b', A.example} x :path {absent, '/', '/ x'} x :status {absent, 200, '20', 'abc'} x :protocol {absent, webtransport, nope} x Host {absent, same, different, '', differing from :authority only in letter case} x undefined ':x' {absent, present} x one regular field over names {ok, Upper, '', 'sp ace', 'ctl\\x01', 'a:b'} x values {v, '', a\\rb, a\\nb, a\\0b, \\x80} (full cross with the reduced pseudo grid, 4 representative regular fields with the full one), as request; responses over :status x leaked request pseudo fields x ':x' x regular; request and response trailers over pairs of regular fields x pseudo leakage. Sections are reference-encoded with literal representations and injected by a scripted peer into a real server / client over simnet. send: 5 method kinds x 6 targets x 7 header sets x trailers, 5 statuses x 7 header sets x trailers through the API, HEADERS frames decoded by refimpl. Oracle refimpl::fields. Non-trivial = sections with at least 2 fields.".into();
